@@ -344,6 +344,59 @@ class InternalParser(Contract):
         return {"self": me, "sequence": fresh(("list", "bytes"), "sequence"), "fields": NONE, "strict": NONE}
 
 
+# P-02f  _skip_useless_lines: exactly the lines that do not start with '#', minus blank lines before the first kept line
+def kept_b(seq, at_beginning):
+    if len(seq) == 0:
+        return []
+    if seq[0].startswith(b"#"):
+        return kept_b(seq[1:], at_beginning)
+    if at_beginning and not seq[0].rstrip(b"\r\n"):
+        return kept_b(seq[1:], True)
+    return [seq[0]] + kept_b(seq[1:], False)
+
+
+def kept_s(seq, at_beginning):
+    if len(seq) == 0:
+        return []
+    if seq[0].startswith("#"):
+        return kept_s(seq[1:], at_beginning)
+    if at_beginning and not seq[0].rstrip("\r\n"):
+        return kept_s(seq[1:], True)
+    return [seq[0]] + kept_s(seq[1:], False)
+
+
+class SkipUseless(Contract):
+    locals_order = ['sequence', 'at_beginning', 'line']
+    target = MOD + ":Deb822._skip_useless_lines"
+    modular = False
+
+    def __init__(self, kind):
+        self.kind = kind
+        fn = "kept_b" if kind == "bytes" else "kept_s"
+        self.yields = kind
+        self.ensures = ("result == %s(sequence, True)" % fn,)
+        self.loops = {0: LoopSpec(invariants=("0 <= ui and ui <= len(sequence)",
+                                              "yields + %s(sequence[ui:], at_beginning) == %s(sequence, True)" % (fn, fn)),
+                                  index="ui", var_types={"line": kind})}
+
+    def setup(self, ex):
+        return {"sequence": fresh(("list", self.kind), "sequence")}
+
+
+def verify_skip_useless(ctx):
+    sl = SpecLib()
+    w = World(sl)
+    w.spec_func(kept_b, rec=dict(args=["list:bytes", "int"], ret=("list", "bytes")))
+    w.spec_func(kept_s, rec=dict(args=["list:str", "int"], ret=("list", "str")))
+    cs = []
+    for kind in ("bytes", "str"):
+        c = SkipUseless(kind)
+        c.__class__ = type("SkipUseless_" + kind, (SkipUseless,), {})
+        cs.append(c)
+    verify_contracts(ctx, w, cs, {})
+    ctx.solve()
+
+
 def verify_internal_parser(ctx, real):
     D = real.Deb822
     sl = SpecLib()
@@ -379,6 +432,7 @@ def run(ctx):
     regex_lemmas(ctx, real)
     verify_split_gpg(ctx, real)
     verify_internal_parser(ctx, real)
+    verify_skip_useless(ctx)
     from props import C08 as _c08
     _c08.run_dump_format(ctx)          # _dump_format / get_as_string: one entry per key, the value exactly as stored
     for q in ("Deb822._internal_parser", "Deb822._skip_useless_lines", "Deb822.split_gpg_and_payload", "Deb822._dump_format",
